@@ -885,11 +885,11 @@ def ext_traits_needed(name):
         return _CLONE
     if n.endswith('Hash>::hash') or n.endswith('::Hash::hash'):
         return {'std::hash::Hash'}
-    if n.startswith('std::vec::Vec::') or n.startswith('core::slice::') or n.startswith('std::option::Option::') \
+    if n.startswith('std::vec::Vec::') or n.startswith('core::slice::') or n.startswith('std::slice::') or n.startswith('std::option::Option::') \
             or n.startswith('std::result::Result::') or n.startswith('std::cell::') or n.startswith('std::mem::') \
             or n.startswith('std::ptr::') or n.startswith('core::ptr::') or n.startswith('std::boxed::Box::'):
         tail = n.rsplit('::', 1)[-1]
-        if tail in ('contains', 'dedup', 'sort', 'starts_with', 'ends_with', 'binary_search'):
+        if tail in ('contains', 'dedup', 'sort', 'sort_unstable', 'starts_with', 'ends_with', 'binary_search', 'is_sorted', 'concat', 'join', 'strip_prefix', 'strip_suffix'):
             return None
         if tail in ('clone', 'cloned', 'to_vec', 'extend_from_slice', 'resize'):
             return _CLONE
